@@ -104,3 +104,10 @@ Require Import GM.model.FootnoteI GM.proofs.FootnoteWf.
 Theorem C01_convert_footnote_model_total : forall c src, bytes_ok src -> exists o, ConvertModelFn c src = Ok o.
 Proof. exact ConvertModelFn_total. Qed.
 Print Assumptions C01_convert_footnote_model_total.
+
+(* and with the heading options (model/HeadingOptsI.v; all four option sets), attribute parser
+   included *)
+Require Import GM.model.HeadingOpts GM.model.HeadingOptsI GM.proofs.HeadingOptsWf.
+Theorem C01_convert_heading_options_total : forall hc c src, bytes_ok src -> exists o, ConvertModelH hc c src = Ok o.
+Proof. exact ConvertModelH_total. Qed.
+Print Assumptions C01_convert_heading_options_total.
